@@ -187,6 +187,9 @@ func runUnits(ps *PropSpec, opts Options, overlay map[string][]byte) *runOutput 
 			}
 			fc := cs.Funcs[k]
 			fn := P.Funcs[k]
+			if fc == nil && strings.HasSuffix(k, ".init") && fn != nil {
+				fc = &FuncContract{Key: k, ModAll: true, Loops: map[int]*LoopContract{}, File: "(synthesised for package init)"}
+			}
 			if fc == nil {
 				out.EngineErrs = append(out.EngineErrs, fmt.Sprintf("function %s has no contract (contracts stopped binding)", k))
 				continue
@@ -196,6 +199,9 @@ func runUnits(ps *PropSpec, opts Options, overlay map[string][]byte) *runOutput 
 				continue
 			}
 			results = append(results, V.verifyFunc(fn, fc))
+		}
+		for _, sv := range V.structuralGlobalStores() {
+			out.EngineErrs = append(out.EngineErrs, "structural: "+sv)
 		}
 		V.solveAll(results)
 		for _, r := range results {
